@@ -1,24 +1,24 @@
 SPECIFICATION Spec
 CONSTANTS
-  N = 4
-  Kinds <- K_callables
-  TKs <- TK_core
+  N = 3
+  Kinds <- K_method
+  TKs <- TK_method
   AllowList = FALSE
   AllowNSkip = FALSE
   AllowVSkip = FALSE
-  AllowReturn = TRUE
+  AllowReturn = FALSE
   AllowMoved = FALSE
-  AllowHost = FALSE
+  AllowHost = TRUE
   AllowRename = FALSE
   MaxFunctions = 1
-  Stepwise = FALSE
+  Stepwise = TRUE
   AliasRecheck = TRUE
-  CallableWalks = 2
+  CallableWalks = 1
   RenameScopeCheck = TRUE
   COrder = TRUE
-  Orders <- Id4
-  KnownShapes <- Known_c
-  ExportViol = 1
-  ExportOk = 997
-INVARIANT NoUnknownViolation
+  Orders <- Id3
+  KnownShapes <- W_one_walk
+  ExportViol = 0
+  ExportOk = 0
+INVARIANT NoWitness
 CHECK_DEADLOCK FALSE
